@@ -15,7 +15,7 @@ EXTENDS Integers, Sequences, FiniteSets, TLC
 NameClasses == {"plain", "space", "hash", "qmark", "pct", "colon", "nonascii", "nested", "empty", "indexroot", "indexnested", "plus", "amp"}
 BundleVers == {"b1", "b2"}
 SxgVers == {"1b1", "1b2", "1b3"}
-EcKeyForms == {"sec1", "pkcs8"}
+EcKeyForms == {"sec1", "pkcs8", "sec1params"}      \* sec1params: what `openssl ecparam -genkey` writes, an EC PARAMETERS block before the key
 Curves == {"p256", "p384"}
 
 \* a step = [tool, in (kinds consumed), out (kind produced), p (parameters)]
